@@ -292,8 +292,12 @@ string DNS::encode_domain_name(const string& dn) {
             output.append(dn.begin() + last_index, dn.begin() + index);
             last_index = index + 1; //skip dot
         }
-        output.push_back(static_cast<char>(dn.size() - last_index));
-        output.append(dn.begin() + last_index, dn.end());
+        // A trailing dot only marks the name as absolute: the root label is
+        // the terminator below, don't emit a second one
+        if (last_index < dn.size()) {
+            output.push_back(static_cast<char>(dn.size() - last_index));
+            output.append(dn.begin() + last_index, dn.end());
+        }
     }
     output.push_back('\0');
     return output;
